@@ -235,47 +235,83 @@ func TestC02CoreExhaustive(t *testing.T) {
 
 var errScriptUnfinished = fmt.Errorf("fault script not used up after 6 h of virtual time")
 
-// runUntilDrained runs the simulation to the end of the fault script and then
-// for at most c02Bound more; it reports a connection that has not drained.
+// runUntilDrained is the bounded-liveness oracle of C02 for a CoreSim.
 func runUntilDrained(s *sim.CoreSim, cfg sim.CoreCfg, fs *sim.FateScript, app [2]sim.AppScript) error {
 	return runUntilDrainedAfter(s, cfg, fs, app, 0)
 }
 
-// runUntilDrainedAfter is runUntilDrained for runs whose faults also include
-// application stalls and scripted drop windows ending at faultsEnd (ms).
+// coreAllowance is how long a healed connection may go without any progress
+// before it counts as wedged. On a fair network the oldest outstanding segment
+// always fits the peer's window, so within its own retransmission timeout
+// (which grows with every earlier loss and has no cap of its own) plus a round
+// trip either the receiver advances or the acknowledgement returns; zero-window
+// probing adds its 120 s ceiling (x1.5 back-off step). Twice that, plus slack.
+func coreAllowance(s *sim.CoreSim, cfg sim.CoreCfg, fs *sim.FateScript) int64 {
+	var maxRto int64 = 200
+	for i := 0; i < 2; i++ {
+		st := s.K[i].VerifState(true)
+		maxRto = max(maxRto, int64(st.RxRto))
+		for _, r := range st.SndBufRto {
+			maxRto = max(maxRto, int64(r))
+		}
+	}
+	rtt := int64(fs.BaseDelay[0]+fs.BaseDelay[1]) + int64(cfg.EP[0].Interval+cfg.EP[1].Interval)
+	return 2*(maxRto+60_000) + 2*180_000 + 4*rtt + 10_000
+}
+
+type coreProgress struct {
+	acc, rcv [2]int64
+	una      [2]uint32
+	wait     [2]int
+	rcvNxt   [2]uint32
+}
+
+func coreSignature(s *sim.CoreSim) (p coreProgress) {
+	for i := 0; i < 2; i++ {
+		p.acc[i], p.rcv[i] = s.Progress(i)
+		st := s.K[i].VerifState(false)
+		p.una[i], p.rcvNxt[i], p.wait[i] = st.SndUna, st.RcvNxt, st.SndQueue+st.SndBuf
+	}
+	return
+}
+
+// runUntilDrainedAfter runs the simulation to the end of the faults (fault
+// script used up, outages / stalls / drop windows over at faultsEnd), then
+// demands PROGRESS: the connection is wedged when nothing (bytes read, snd_una,
+// rcv_nxt, backlog) has moved for longer than coreAllowance. A fixed total time
+// would be wrong: a sender that over-ran a 1-segment window before it was told
+// recovers two segments per ever-growing RTO round - slow, not stuck.
 func runUntilDrainedAfter(s *sim.CoreSim, cfg sim.CoreCfg, fs *sim.FateScript, app [2]sim.AppScript, faultsEnd int64) error {
-	// The script is finite in datagrams; it ends in time when its last
-	// scripted datagram has been emitted and the last outage is over.
-	scriptEnd := int64(-1)
-	prev := s.OnEmit
-	s.OnEmit = func(e *sim.Emitted) error {
-		if scriptEnd < 0 && s.Stats.Emitted[0] >= fs.Len(0) && s.Stats.Emitted[1] >= fs.Len(1) {
-			scriptEnd = max(e.At, fs.EndTime(), faultsEnd) + int64(s.Stats.MaxDeliveredDelay)
-		}
-		if prev != nil {
-			return prev(e)
-		}
-		return nil
+	scriptDone := func() bool {
+		return s.Stats.Emitted[0] >= fs.Len(0) && s.Stats.Emitted[1] >= fs.Len(1) && s.Now() >= max(fs.EndTime(), faultsEnd)
 	}
-	err := s.Run(max(1_500_000, faultsEnd))
-	if err == nil && !s.Stats.Done && scriptEnd < 0 {
-		// Retransmission back-off can stretch a script counted in datagrams
-		// over hours (every ack of a one-way flow dropped 40 times in a row).
-		err = s.Run(6 * 3600_000)
+	err := s.Run(max(1_000, faultsEnd, fs.EndTime()))
+	for err == nil && !s.Stats.Done && !scriptDone() && s.Now() < 6*3600_000 {
+		// retransmission back-off can stretch a script counted in datagrams over hours
+		err = s.Run(s.Now() + 300_000)
 	}
-	if err == nil && !s.Stats.Done {
-		if scriptEnd < 0 {
-			// the fault period is not over yet: the premise of the property
-			// is not met, the case says nothing
-			return errScriptUnfinished
+	if err != nil || s.Stats.Done {
+		return err
+	}
+	if !scriptDone() {
+		return errScriptUnfinished // the premise (faults over) was never met
+	}
+	healed := s.Now()
+	last, lastAt := coreSignature(s), s.Now()
+	for err == nil && !s.Stats.Done {
+		err = s.Run(s.Now() + 20_000)
+		if sig := coreSignature(s); sig != last {
+			last, lastAt = sig, s.Now()
+			continue
 		}
-		bound := scriptEnd + c02Bound(cfg, fs, app, scriptEnd)
-		err = s.Run(bound)
-		if err == nil && !s.Stats.Done {
+		if allow := coreAllowance(s, cfg, fs); s.Now()-lastAt > allow {
 			a0, r0 := s.Progress(0)
 			a1, r1 := s.Progress(1)
-			err = fmt.Errorf("connection did not drain: script ended at %d ms, now %d ms (bound %d); A->B accepted %d read %d, B->A accepted %d read %d; WaitSnd A=%d B=%d; state A=%+v B=%+v",
-				scriptEnd, s.Now(), bound, a0, r0, a1, r1, s.K[0].WaitSnd(), s.K[1].WaitSnd(), s.K[0].VerifState(true), s.K[1].VerifState(true))
+			return fmt.Errorf("connection wedged: faults over since %d ms, no progress of any kind since %d ms (now %d ms, allowance %d ms); A->B accepted %d read %d, B->A accepted %d read %d; WaitSnd A=%d B=%d; state A=%+v B=%+v",
+				healed, lastAt, s.Now(), allow, a0, r0, a1, r1, s.K[0].WaitSnd(), s.K[1].WaitSnd(), s.K[0].VerifState(true), s.K[1].VerifState(true))
+		}
+		if s.Now()-healed > 48*3600_000 {
+			return errScriptUnfinished // still crawling after two days of virtual time: says nothing
 		}
 	}
 	return err
